@@ -7,7 +7,7 @@ use std::process::{Command, Stdio};
 use std::sync::{Arc, Barrier};
 use std::time::{Duration, Instant};
 
-pub const OPS: &[&str] = &["format", "format_flat", "tree_format", "diagnostic_annotated", "hex", "register_tags", "kv_name", "fn_name", "param_name"];
+pub const OPS: &[&str] = &["format", "format_flat", "tree_format", "diagnostic_annotated", "hex", "register_tags", "kv_name", "fn_name", "param_name", "kv_store", "fn_store", "param_store"];
 
 fn sample_envelopes() -> Vec<Envelope> {
     // built WITHOUT touching any registry (no formatting, no name lookups)
@@ -22,7 +22,13 @@ fn sample_envelopes() -> Vec<Envelope> {
     use bc_components::tags::{TAG_EVENT, TAG_REQUEST, TAG_RESPONSE};
     let e6 = Envelope::new(CBOR::to_tagged_value(TAG_REQUEST, CBOR::from(bc_envelope::functions::ADD)));
     let e7 = Envelope::new("host").add_assertion(CBOR::to_tagged_value(TAG_RESPONSE, CBOR::from(known_values::NOTE)), CBOR::to_tagged_value(TAG_EVENT, CBOR::from(bc_envelope::parameters::LHS)));
-    vec![e1, e2, e3, e4, e5, e6, e7]
+    // ... nested in one another, two and three deep
+    let req = |x: CBOR| CBOR::to_tagged_value(TAG_REQUEST, x);
+    let resp = |x: CBOR| CBOR::to_tagged_value(TAG_RESPONSE, x);
+    let ev = |x: CBOR| CBOR::to_tagged_value(TAG_EVENT, x);
+    let e8 = Envelope::new(req(req(CBOR::from(1))));
+    let e9 = Envelope::new("nested").add_assertion(resp(req(CBOR::from(bc_envelope::functions::ADD))), ev(resp(req(CBOR::from(known_values::NOTE)))));
+    vec![e1, e2, e3, e4, e5, e6, e7, e8, e9]
 }
 
 fn fnv(s: &str) -> u64 { let mut h = 0xcbf29ce484222325u64; for b in s.bytes() { h ^= b as u64; h = h.wrapping_mul(0x100000001b3); } h }
@@ -38,6 +44,28 @@ pub fn run_op(op: &str, e: &Envelope) -> String {
         "kv_name" => { let b = known_values::KNOWN_VALUES.get(); b.as_ref().unwrap().name(known_values::NOTE) }
         "fn_name" => { let b = bc_envelope::extension::expressions::GLOBAL_FUNCTIONS.get(); b.as_ref().unwrap().name(&bc_envelope::functions::ADD) }
         "param_name" => { let b = bc_envelope::extension::expressions::GLOBAL_PARAMETERS.get(); b.as_ref().unwrap().name(&bc_envelope::parameters::LHS) }
+        // every lookup door of a registry store, under one guard (registered and unregistered values, both directions)
+        "kv_store" => {
+            use bc_envelope::extension::known_values::KnownValuesStore;
+            let b = known_values::KNOWN_VALUES.get(); let st = b.as_ref();
+            let s = st.unwrap();
+            format!("{:?}|{:?}|{}|{}|{:?}|{:?}|{}|{}|{:?}", s.known_value_named("note").map(|k| k.value()), s.known_value_named("no such name").map(|k| k.value()),
+                KnownValuesStore::known_value_for_raw_value(4, st).name(), KnownValuesStore::known_value_for_raw_value(4711, st).name(),
+                KnownValuesStore::known_value_for_name("isA", st).map(|k| k.value()), KnownValuesStore::known_value_for_name("nope", st).map(|k| k.value()),
+                KnownValuesStore::name_for_known_value(known_values::NOTE, st), KnownValuesStore::name_for_known_value(KnownValue::new(4711), st), s.assigned_name(&known_values::IS_A))
+        }
+        "fn_store" => {
+            use bc_envelope::extension::expressions::FunctionsStore;
+            let b = bc_envelope::extension::expressions::GLOBAL_FUNCTIONS.get(); let st = b.as_ref();
+            format!("{}|{}|{:?}|{}", FunctionsStore::name_for_function(&bc_envelope::functions::ADD, st), FunctionsStore::name_for_function(&bc_envelope::Function::new_named("custom"), st),
+                st.unwrap().assigned_name(&bc_envelope::functions::SUB), FunctionsStore::name_for_function(&bc_envelope::Function::new_known(4711, None), st))
+        }
+        "param_store" => {
+            use bc_envelope::extension::expressions::ParametersStore;
+            let b = bc_envelope::extension::expressions::GLOBAL_PARAMETERS.get(); let st = b.as_ref();
+            format!("{}|{}|{:?}|{}", ParametersStore::name_for_parameter(&bc_envelope::parameters::LHS, st), ParametersStore::name_for_parameter(&bc_envelope::Parameter::new_named("custom"), st),
+                st.unwrap().assigned_name(&bc_envelope::parameters::RHS), ParametersStore::name_for_parameter(&bc_envelope::Parameter::new_known(4711, None), st))
+        }
         _ => String::new(),
     }
 }
@@ -163,7 +191,7 @@ fn sample_envelopes_sendable() -> Vec<Vec<u8>> { sample_envelopes().iter().map(|
 fn run_op_bytes(op: &str, b: &[u8]) -> String {
     // the registry lookups do not look at the envelope: no decoding in front of them, so that threads released together really
     // arrive at the lazy together
-    if matches!(op, "kv_name" | "fn_name" | "param_name" | "register_tags") { return run_op(op, &Envelope::new(0)); }
+    if matches!(op, "kv_name" | "fn_name" | "param_name" | "register_tags" | "kv_store" | "fn_store" | "param_store") { return run_op(op, &Envelope::new(0)); }
     // NOTE: decoding takes dcbor's GLOBAL_TAGS lock briefly (Envelope::cbor_tags) - part of the mix
     let e = Envelope::from_tagged_cbor_data(b).unwrap();
     run_op(op, &e)
@@ -171,8 +199,8 @@ fn run_op_bytes(op: &str, b: &[u8]) -> String {
 
 /// child: sequential reference - the text each (op, envelope) returns when run alone, in a
 /// process where `register_tags` has (1) or has not (0) been called before
-pub fn expected_one(registered: bool) {
-    if registered { bc_envelope::register_tags(); }
+pub fn expected_one(registrations: usize) {
+    for _ in 0..registrations { bc_envelope::register_tags(); }
     let es = sample_envelopes_sendable();
     for op in OPS { if *op == "register_tags" { continue; } for (i, b) in es.iter().enumerate() { println!("{} {} {:016x}", op, i, fnv(&run_op_bytes(op, b))); } }
 }
@@ -204,11 +232,18 @@ pub fn campaign(outdir: &str, seed: u64, thorough: bool) {
     std::fs::write(format!("{}/traces.txt", outdir), &traces).unwrap();
     let table = |reg: &str| -> std::collections::HashSet<String> { spawn_self(&["c20-expected-one".into(), reg.into()], Duration::from_secs(60)).unwrap_or_default().lines().map(|l| l.to_string()).collect() };
     let (before, after) = (table("0"), table("1"));
+    // registering the tags is idempotent: run alone, a second and a third registration change no text (otherwise what a
+    // formatting call returns next to a registering thread depends on how many registrations have happened so far)
+    let again: Vec<(usize, std::collections::HashSet<String>)> = vec![(2, table("2")), (4, table("4"))];
     let mut rng = crate::rng::Rng::new(seed);
     let rounds = if thorough { 400 } else { 48 };
     let (mut runs, mut calls_checked, mut mismatches, mut timeouts, mut panics) = (0u64, 0u64, vec![], vec![], vec![]);
     let mut samples = vec![];
     if before.is_empty() || after.is_empty() { panics.push("could not compute the sequential reference tables".to_string()); }
+    for (n, t) in &again {
+        let mut diff: Vec<&String> = t.symmetric_difference(&after).collect(); diff.sort();
+        if let Some(d) = diff.first() { mismatches.push(format!("run alone: after {} calls of register_tags the text differs from the text after one call: {} ({} table lines differ)", n, d, diff.len())); }
+    }
     // first the systematic part: for every operation, fresh processes in which all threads make that operation their very first
     // call (several threads race on the first use of one lazy); then the random mixes
     let mut plan: Vec<(usize, bool, u64, Option<String>)> = vec![];
